@@ -13,7 +13,10 @@ Targets == {"var", "idx1", "idx2", "range", "all", "field"}
 Subs == {"s", "ss", "all", "alls", "sall", "range", "rangeincl", "rangestep", "vec", "mask", "dot", "dotint", "brace", "swizzle", "chain2", "dotidx"}
 Lits == {"int", "float", "neg", "hex", "oct", "bin", "dec", "sci", "scineg", "scicap", "rat", "cplx", "cplxneg", "imag", "typed", "annot", "str", "stresc", "strnl", "strraw", "strtab", "strsp", "strempty",
          "strqend", "strqstart", "strqonly", "strq2end", "strbsend", "strbsonly", "strbsq", "strq2mid", "strq3mid", "strbrace", "struni", "strsemi", "strdash",
-         "atom", "empty", "true", "false", "big", "leaddot"}
+         "atom", "empty", "true", "false", "big", "leaddot",
+         \* complex literals: every (real part form) x (sign) x (imaginary part form) over integer / float / scientific / negative-exponent scientific,
+         \* and the negated forms of the real literals
+         "cx_int_p_int", "cx_int_p_float", "cx_int_p_sci", "cx_int_p_scineg", "cx_int_m_int", "cx_int_m_float", "cx_int_m_sci", "cx_int_m_scineg", "cx_float_p_int", "cx_float_p_float", "cx_float_p_sci", "cx_float_p_scineg", "cx_float_m_int", "cx_float_m_float", "cx_float_m_sci", "cx_float_m_scineg", "cx_sci_p_int", "cx_sci_p_float", "cx_sci_p_sci", "cx_sci_p_scineg", "cx_sci_m_int", "cx_sci_m_float", "cx_sci_m_sci", "cx_sci_m_scineg", "cx_scineg_p_int", "cx_scineg_p_float", "cx_scineg_p_sci", "cx_scineg_p_scineg", "cx_scineg_m_int", "cx_scineg_m_float", "cx_scineg_m_sci", "cx_scineg_m_scineg", "negfloat", "negsci", "negscineg", "negrat", "negimag", "imagsci", "negimagsci"}
 
 Cases ==
        {[fam |-> "fsm", a |-> a1, b |-> g1, c |-> pp, d |-> "-"] : a1 \in TransOps, g1 \in TransOps \cup {"out"}, pp \in TransOps \cup {"none"}}
